@@ -2,6 +2,7 @@ package crypki
 
 //vsym:pkg github.com/theparanoids/ysshra/crypki
 //vsym:entry H04_signer_contract
+//vsym:include crypki/ctor.go || crypki/ctor_bb.go
 //vsym:include C17/h17_failover.go
 //vsym:model google.golang.org/grpc.NewClient m17NewClient
 //vsym:model (*google.golang.org/grpc.ClientConn).Close m17ConnClose
